@@ -100,6 +100,12 @@ impl NumOrd<i64> for Integer {
     #[verifier::external_body] fn num_lt(&self, o: &i64) -> (r: bool) ensures r == (self.v() < *o) { unimplemented!() }
     #[verifier::external_body] fn num_partial_cmp(&self, o: &i64) -> (r: Option<Ordering>) ensures r == Some(int_cmp(self.v(), *o as int)) { unimplemented!() }
 }
+impl NumOrd<Integer> for Integer {
+    #[verifier::external_body] fn num_eq(&self, o: &Integer) -> (r: bool) ensures r == (self.v() == o.v()) { unimplemented!() }
+    #[verifier::external_body] fn num_gt(&self, o: &Integer) -> (r: bool) ensures r == (self.v() > o.v()) { unimplemented!() }
+    #[verifier::external_body] fn num_lt(&self, o: &Integer) -> (r: bool) ensures r == (self.v() < o.v()) { unimplemented!() }
+    #[verifier::external_body] fn num_partial_cmp(&self, o: &Integer) -> (r: Option<Ordering>) ensures r == Some(int_cmp(self.v(), o.v())) { unimplemented!() }
+}
 impl NumOrd<Integer> for i64 {
     #[verifier::external_body] fn num_eq(&self, o: &Integer) -> (r: bool) ensures r == (*self as int == o.v()) { unimplemented!() }
     #[verifier::external_body] fn num_gt(&self, o: &Integer) -> (r: bool) ensures r == (*self as int > o.v()) { unimplemented!() }
